@@ -16,6 +16,7 @@
 """Model Modifier class that produce the final quantized TFlite model."""
 
 import copy
+import os
 
 import numpy as np
 
@@ -74,6 +75,12 @@ class ModelModifier:
     )
     self._update_signature_defs(quantized_model, original_outputs)
     constant_buffer_size = self._process_constant_map(quantized_model)
+    # Verification hook, inactive unless AI_EDGE_QUANTIZER_VERIF=1: lets a check
+    # lower the size threshold so that small models take the large-model path.
+    if os.environ.get('AI_EDGE_QUANTIZER_VERIF') == '1':
+      threshold = os.environ.get('AI_EDGE_QUANTIZER_VERIF_LARGE_MODEL_THRESHOLD')
+      if threshold is not None and constant_buffer_size > int(threshold):
+        return self._serialize_large_model(quantized_model)
     if constant_buffer_size > 2**31 - 2**20:
       return self._serialize_large_model(quantized_model)
     else:
